@@ -89,7 +89,7 @@ def run(mid, checks, tier):
     return 0
 
 
-def prun(ids, jobs, tier, all_checks=False):
+def prun(ids, jobs, tier, all_checks=False, only=None):
     """the same as `run` for many seeded changes at once: worker k owns the scratch worktree /tmp/pm_<k> of /repo's HEAD
     and runs the checks against it (VERIF_REPO), so /repo itself is never touched; worktrees and private build
     directories are removed at the end"""
@@ -125,7 +125,7 @@ def prun(ids, jobs, tier, all_checks=False):
                     break
                 d = os.path.join(SEEDED, mid)
                 meta = json.load(open(os.path.join(d, "meta.json")))
-                checks = claimed() if all_checks else [meta["property"]]
+                checks = only if only else claimed() if all_checks else [meta["property"]]
                 rc, out = sh(["git", "apply", os.path.join(d, "patch.diff")], cwd=wt)
                 if rc != 0:
                     print("patch does not apply:", mid, out)
@@ -159,7 +159,7 @@ def prun(ids, jobs, tier, all_checks=False):
                 old.update(res)
                 json.dump(old, open(path, "w"), indent=1)
                 with lock:
-                    print("%s (breaks %s): caught by %s" % (mid, meta.get("property"), ", ".join(c for c, r in old.items() if r["exit"] != 0) or "NOTHING"), flush=True)
+                    print("%s (breaks %s): reported by %s" % (mid, meta.get("property"), ", ".join(c for c, r in old.items() if r["exit"] != 0) or "NOTHING"), flush=True)
         finally:
             sh(["git", "worktree", "remove", "--force", wt], cwd=REPO)
             shutil.rmtree(alt, ignore_errors=True)
@@ -245,9 +245,14 @@ def main():
         # tools/mutants.py prun <jobs> [--all] id id ...   (ids may be prefixes such as C01)
         jobs = int(a[1])
         allc = "--all" in a
+        only = None
+        if "--checks" in a:
+            i = a.index("--checks")
+            only = a[i + 1].split(",")
+            a = a[:i] + a[i + 2:]
         want = [x for x in a[2:] if not x.startswith("--")]
         ids = [m for m in sorted(os.listdir(SEEDED)) if os.path.exists(os.path.join(SEEDED, m, "meta.json")) and (not want or any(m.startswith(w) for w in want))]
-        return prun(ids, jobs, "quick", allc)
+        return prun(ids, jobs, "quick", allc, only)
     if a[0] == "run":
         mid = a[1]
         tier = "quick"
